@@ -66,6 +66,9 @@ def expected_follower(link, leader_now):
     l0, f0 = spec["l0"], spec["f0"]
     if spec["kind"] == "translation":
         return vadd(leader_now, vsub(f0, l0))
+    if spec["kind"] == "symmetry":
+        n = vmul(spec["axis"], 1.0 / vnorm(spec["axis"]))
+        return vsub(list(leader_now), vmul(n, 2 * vdot(vsub(list(leader_now), spec["origin"]), n)))
     axis, origin = spec["axis"], spec["origin"]
     k = vmul(axis, 1.0 / vnorm(axis))
 
@@ -187,10 +190,23 @@ def sketch_scenario(rng: random.Random):
     o = point([0, 0, 0])
     clamps, preds = [], []
     interior = [i + (n + 1) * j for j in range(1, n) for i in range(1, n)]
-    for v in rng.sample(interior, rng.randint(1, len(interior))):
+    links = []
+    if rng.random() < 0.5:
+        # a pair of interior points mirrored in the plane x = 1.5 (given by a NON-unit normal): the left one is clamped,
+        # the right one follows through a SymmetryLink
+        lead, follow = 1 + (n + 1) * 1, 2 + (n + 1) * 1
+        normal, origin = vector([rng.uniform(1.5, 3.0), 0, 0]), point([1.5, 0, 0])
+        nn = vmul(normal, 1.0 / vnorm(normal))
+        pos[follow] = vsub(pos[lead], vmul(nn, 2 * vdot(vsub(pos[lead], origin), nn)))
+        sketch = cb.MappedSketch(np.array(pos), quads)
+        clamps.append(cb.PlaneClamp(pos[lead], pos[lead], ez))
+        preds.append(lambda p, prm: (abs(vdot(vsub(p, o), ez)) < 1e-6 * scale, True))
+        links.append(tag_link(cb.SymmetryLink(pos[lead], pos[follow], normal, origin), "symmetry", pos[lead], pos[follow], normal, origin))
+        interior = [v for v in interior if v not in (lead, follow)]
+    for v in rng.sample(interior, rng.randint(1 if not links else 0, len(interior))):
         clamps.append(cb.PlaneClamp(pos[v], pos[v], ez))
         preds.append(lambda p, prm: (abs(vdot(vsub(p, o), ez)) < 1e-6 * scale, True))
-    return sketch, clamps, [], preds, scale
+    return sketch, clamps, links, preds, scale
 
 
 def run_one(ctx: Ctx, rid: int, rng: random.Random, kind: str, mode: str, full: bool = False, rotation: bool = False):
